@@ -122,6 +122,8 @@ def replay_fast_vs_general(sc):
     mdl = _concrete_levycopula(d)
     a = [float(x) for x in sc["a"]]
     b = [float(x) for x in sc["b"]]
+    if any(x == 0.0 for x in a + b):
+        mdl = _finite_levycopula(d)  # an end point at 0 needs a finite half-line mass
     fast = (mdl._mass_2d if d == 2 else mdl._mass_3d)(a, b)
     gen = mdl._mass_nd(list(a), list(b))
     ok = abs(fast - gen) > 1e-9 * max(1.0, abs(gen))
@@ -160,6 +162,99 @@ def replay_split(sc):
     return bad, f"HEM margins + Clayton, d={d}: mass({a},{b}) = {whole!r} but split along axis {k} at {c}: {left!r} + {right!r} = {left + right!r}"
 
 
+def _tail_ref(mdl, i, x):
+    """signed tail integral of margin i from the margin's own Lévy measure (reference for the replays)"""
+    if math.isinf(x):
+        return 0.0
+    nu = mdl.models[i].levy_triplet.nu
+    return -float(nu.integrate(-INF, x)) if x < 0 else float(nu.integrate(x, INF))
+
+
+def _imargin_ref(mdl, idx, us):
+    """I-margin of the model's copula at the tail integrals `us`: signed sum over the +-inf patterns of the other coordinates"""
+    d = len(mdl.models)
+    others = [k for k in range(d) if k not in idx]
+    if len(idx) == 1:
+        return us[0]
+    tot = 0.0
+    for p in itertools.product([-INF, INF], repeat=len(others)):
+        args = [0.0] * d
+        for k, u in zip(idx, us):
+            args[k] = u
+        sgn = 1
+        for k, v in zip(others, p):
+            args[k] = v
+            if v < 0:
+                sgn = -sgn
+        tot += sgn * float(mdl.copula(np.array(args)))
+    return tot
+
+
+def replay_submargin(sc):
+    """distinct HEM margins + Clayton: mass(a, b, indices=I) on same-side intervals against (-1)^|I| x the I-margin volume computed
+    here from the copula and the margins' own tail integrals"""
+    d, idx = sc["d"], list(sc["idx"])
+    mdl = _finite_levycopula(d)
+    a, b = [float(x) for x in sc["a"]], [float(x) for x in sc["b"]]
+    n = len(idx)
+    vol = 0.0
+    for p in itertools.product([0, 1], repeat=n):
+        xs = [a[j] if pj == 0 else b[j] for j, pj in enumerate(p)]
+        if any(math.isinf(x) for x in xs):
+            continue
+        us = [_tail_ref(mdl, idx[j], xs[j]) for j in range(n)]
+        vol += (-1 if (n - sum(p)) % 2 else 1) * _imargin_ref(mdl, idx, us)
+    want = (-1 if n % 2 else 1) * vol
+    out = []
+    for name, got in (("_mass_nd", float(mdl._mass_nd(list(a), list(b), list(idx)))), ("mass", float(mdl.mass(tuple(a), tuple(b), list(idx))))):
+        if abs(got - want) > 1e-9 * max(1.0, abs(want)):
+            out.append(f"{name}(a={a}, b={b}, indices={idx}) = {got!r} but the I-margin volume of the copula at the margins' tail integrals is {want!r}")
+    return bool(out), f"HEM margins (distinct) + Clayton, d={d}: " + "; ".join(out)
+
+
+def replay_margin_sum(sc):
+    d, axis = sc["d"], sc["axis"]
+    mdl = _finite_levycopula(d)
+    lo, hi = float(sc["lo"]), float(sc["hi"])
+    a, b = [-INF] * d, [INF] * d
+    a[axis], b[axis] = lo, hi
+    got = float(mdl.mass(tuple(a), tuple(b)))
+    want = float(mdl.models[axis].levy_triplet.nu.integrate(lo, hi))
+    return abs(got - want) > 1e-9 * max(1.0, abs(want)), f"HEM margins + Clayton, d={d}: mass with coordinate {axis} in [{lo},{hi}] and the others on the whole line = {got!r}, nu_{axis}([{lo},{hi}]) = {want!r}"
+
+
+def replay_tail(sc):
+    d = sc["d"]
+    mdl = _finite_levycopula(d)
+    out = []
+    for i in range(d):
+        for x in (-0.4, -0.05, 0.07, 0.6):
+            got, want = float(mdl.marginal_tail_integral(i, x)), _tail_ref(mdl, i, x)
+            mdl.marginal_tail_integral(i, -x)
+            again = float(mdl.marginal_tail_integral(i, x))
+            if abs(got - want) > 1e-12 * max(1.0, abs(want)) or again != got:
+                out.append(f"marginal_tail_integral({i}, {x}) = {got!r} (repeated: {again!r}) vs signed tail mass {want!r}")
+    return bool(out), f"HEM margins + Clayton, d={d}: " + "; ".join(out[:3])
+
+
+def replay_orthant(sc):
+    """mass of a rectangle inside one orthant: non-negative and equal to the (signed) volume of the copula over the image rectangle"""
+    d = sc["d"]
+    mdl = _finite_levycopula(d)
+    a, b = [float(x) for x in sc["a"]], [float(x) for x in sc["b"]]
+    got = float(mdl.mass(tuple(a), tuple(b)))
+    vol = 0.0
+    for p in itertools.product([0, 1], repeat=d):
+        xs = [a[j] if pj == 0 else b[j] for j, pj in enumerate(p)]
+        us = [_tail_ref(mdl, j, xs[j]) for j in range(d)]
+        if any(u == 0.0 for u in us):
+            continue
+        vol += (-1 if (d - sum(p)) % 2 else 1) * float(mdl.copula(np.array(us)))
+    want = (-1 if d % 2 else 1) * vol
+    bad = got < -1e-12 or abs(got - want) > 1e-9 * max(1.0, abs(want))
+    return bad, f"HEM margins + Clayton, d={d}: mass({a},{b}) = {got!r}; copula volume over the image rectangle {want!r}"
+
+
 def _vals(m, xs):
     out = []
     for x in xs:
@@ -170,7 +265,7 @@ def _vals(m, xs):
 def _rescale(a, b):
     """bring model end points into a numerically comfortable range, keeping order and signs"""
     def sq(x):
-        if math.isinf(x):
+        if math.isinf(x) or x == 0:
             return x
         s = -1.0 if x < 0 else 1.0
         return s * (0.05 + 0.5 * (1 - 1 / (1 + abs(x))))
@@ -212,13 +307,13 @@ def h_tail_integral(ctx, d):
             want = -SymReal(nu.neg_term(0, -INF, x))
         else:
             want = SymReal(nu.pos_term(0, x, INF))
-        ctx.prove("C12.tail_integral_is_signed_tail_mass", EQ(got, want))
+        ctx.prove("C12.tail_integral_is_signed_tail_mass", EQ(got, want), replay=(replay_tail, lambda m: {"d": d}))
         # lru-cache history twin: the same query after other queries
         y = ctx.real(f"y{i}")
         ctx.assume(y != 0)
         mdl.marginal_tail_integral(i, y)
         again = mdl.marginal_tail_integral(i, x)
-        ctx.prove("C12.tail_integral_cache_consistent", EQ(again, got))
+        ctx.prove("C12.tail_integral_cache_consistent", EQ(again, got), replay=(replay_tail, lambda m: {"d": d}))
 
 
 def h_margin_sum(ctx, d, axis, kind):
@@ -234,7 +329,11 @@ def h_margin_sum(ctx, d, axis, kind):
         want = SymReal(nu.neg_term(0, iv[0], iv[1]))
     else:
         want = SymReal(nu.pos_term(0, iv[0], iv[1]))
-    ctx.prove(f"C12.margin_sum.{d}d", EQ(got, want), info={"axis": axis, "kind": kind})
+    def scen(m):
+        aa, bb = _rescale(_vals(m, [iv[0]]), _vals(m, [iv[1]]))
+        return {"d": d, "axis": axis, "lo": aa[0], "hi": bb[0]}
+
+    ctx.prove(f"C12.margin_sum.{d}d", EQ(got, want), info={"axis": axis, "kind": kind}, replay=(replay_margin_sum, scen))
 
 
 def _U(models, i, x):
@@ -285,8 +384,12 @@ def h_submargin(ctx, d, idx, kinds):
         sgn = -1 if (n - sum(p)) % 2 else 1
         vol = vol + sgn * FI(pts)
     want = SymReal(z3.simplify((-1 if n % 2 else 1) * vol))
-    ctx.prove(f"C12.submargin_mass_is_I_margin_volume.{d}d", EQ(got, want), info={"indices": idx, "kinds": kinds})
-    ctx.prove(f"C12.submargin_fast_eq_general.{d}d", EQ(got_fast, got), info={"indices": idx, "kinds": kinds})
+    def scen(m):
+        aa, bb = _rescale(_vals(m, a), _vals(m, b))
+        return {"d": d, "idx": list(idx), "a": aa, "b": bb}
+
+    ctx.prove(f"C12.submargin_mass_is_I_margin_volume.{d}d", EQ(got, want), info={"indices": idx, "kinds": kinds}, replay=(replay_submargin, scen))
+    ctx.prove(f"C12.submargin_fast_eq_general.{d}d", EQ(got_fast, got), info={"indices": idx, "kinds": kinds}, replay=(replay_submargin, scen))
 
 
 def h_split(ctx, d, kinds, axis, side):
@@ -331,8 +434,12 @@ def h_nonneg(ctx, d, kinds):
     got = mdl.mass(tuple(a), tuple(b))
     ctx.instantiate()
     cop.axiom_increasing(lo, hi)
-    ctx.prove(f"C12.nonneg_in_orthant.{d}d", got >= 0, info={"kinds": kinds})
-    ctx.prove(f"C12.mass_is_F_volume_of_image.{d}d", EQ(got, SymReal(z3.simplify(cop.volume_term(lo, hi)))), info={"kinds": kinds})
+    def scen(m):
+        aa, bb = _rescale(_vals(m, a), _vals(m, b))
+        return {"d": d, "a": aa, "b": bb}
+
+    ctx.prove(f"C12.nonneg_in_orthant.{d}d", got >= 0, info={"kinds": kinds}, replay=(replay_orthant, scen))
+    ctx.prove(f"C12.mass_is_F_volume_of_image.{d}d", EQ(got, SymReal(z3.simplify(cop.volume_term(lo, hi)))), info={"kinds": kinds}, replay=(replay_orthant, scen))
 
 
 def h_twin(ctx):
